@@ -2,69 +2,64 @@
    This file holds nothing but the property theorems (closed by `exact`), Print Assumptions and Examples.
    Model: Loader/Model.v (builder.go, parser.go, assert.go, condition.go, patternutil.go, status.go function by
    function; Panic = Go nil dereference / failed type assertion / slice out of range), Loader/Decode.v (the typing
-   rules of yaml.v2 + mapstructure).  Tie to the code: tools/props/C13.py (definition trees through the real
-   LoadYAML / LoadMetadata / LoadWithoutEval / Load against the model on the same tree).
+   rules of yaml.v2 + mapstructure and the two checks of loader.go's decode).  The model follows the REPAIRED code
+   (/repo fix commits c2912bd F13a, 519d0a6 F13b, e67ca4a F13g, c021988 F13c, 089471d F13d, aac42fa F13e).
+   Tie to the code: tools/props/C13.py (definition trees through the real LoadYAML / LoadMetadata /
+   LoadWithoutEval / Load against the model on the same tree).
 
-   Every theorem quantifies over ALL decoded definitions, options, initial environments and over every value of
-   the library parameters (cron parse verdict, signal validity, regexp compilability, parameter tokenizer, command
-   outputs, pattern matcher).  The pinned code violates the property on the input classes F13a-g (DESIGN.md
-   section 6): the `_refuted` lemmas are the witnesses, the `_partial` theorems exclude exactly those classes by
-   decidable premises on the input. *)
+   Every theorem quantifies over ALL untyped trees / decoded definitions, options, initial environments and over
+   every value of the library parameters (cron parse verdict, signal validity, regexp compilability, parameter
+   tokenizer, command outputs, pattern matcher).  What remains beside the full statements:
+     - one hypothesis on the cron library in the generic no-panic theorems (it panics only on a bare TZ= / CRON_TZ=
+       prefix); it is PROVED for the Cron model (C09), giving C13_load_no_panic_cron without any hypothesis;
+     - `build` taken alone still assumes `no_nil d`: that is exactly what decode guarantees (C13_decode_no_nil);
+     - F13f (executor config holding a mapping inside a list or NaN / Inf => status not serialisable) is NOT
+       repaired: `_refuted` witness + `_partial` theorem with the excluded class as premise. *)
 From Coq Require Import List ZArith String.
 Import ListNotations.
-From BD.Loader Require Import Str Model Decode Proofs DecodeProofs LoadProofs Witness.
+From BD.Loader Require Import Str Model Decode Proofs DecodeProofs LoadProofs CronPlug Witness.
 Open Scope string_scope.
 Open Scope list_scope.
 
 (* ---- never crashes --------------------------------------------------------------------------------------- *)
-(* Full statement (FALSE of the pinned code):
-     forall o d base e, outcome (build cron sig_ok tokenize sh o d base e) <> Panic.
-   Holds when no steps / functions / preconditions list holds a null element (F13c), no schedule string makes the
-   cron library panic (F13b) and every key of a schedule mapping that carries strings is start / stop / restart (F13a). *)
-Theorem C13_no_panic_partial :
-  forall (cron : string -> cronv) (sig_ok : string -> bool) (tokenize : string -> list (string * string))
-         (sh : string -> option string) (o : opts) (d : definition) (base : list string),
-  no_nil d = true -> sched_safe cron (d_schedule d) = true ->
-  forall e : envt, outcome (build cron sig_ok tokenize sh o d base e) <> Panic.
-Proof. exact build_no_panic_partial. Qed.
-Print Assumptions C13_no_panic_partial.
-
-(* the decode stage (mapstructure over the yaml.v2 tree) panics only on a non-string key of a nested mapping (F13g) *)
-Theorem C13_decode_no_panic_partial : forall root : yv, all_keys_strings root = true -> decode root <> Panic.
-Proof. exact decode_no_panic_partial. Qed.
-Print Assumptions C13_decode_no_panic_partial.
-
-(* decode + build over every untyped tree *)
-Theorem C13_load_no_panic_partial :
-  forall (cron : string -> cronv) (sig_ok : string -> bool) (tokenize : string -> list (string * string))
+(* decode + build over EVERY untyped tree, every entry point (options) *)
+Theorem C13_load_no_panic :
+  forall (cron : string -> cronv), (forall s, cron s = CronPanic -> tz_only s = true) ->
+  forall (sig_ok : string -> bool) (tokenize : string -> list (string * string))
          (sh : string -> option string) (o : opts) (root : yv) (e : envt),
-  all_keys_strings root = true ->
-  (forall d, decode root = Ok d -> no_nil d = true /\ sched_safe cron (d_schedule d) = true) ->
   outcome (load_tree cron sig_ok tokenize sh o root e) <> Panic.
-Proof. exact load_no_panic_partial. Qed.
-Print Assumptions C13_load_no_panic_partial.
+Proof. exact load_no_panic. Qed.
+Print Assumptions C13_load_no_panic.
 
-Theorem C13_no_panic_refuted_F13a :
-  exists d, no_nil d = true /\ outcome (buildW oYAML d [] []) = Panic /\ outcome (buildW oMeta d [] []) = Panic.
-Proof. exact no_panic_refuted_F13a. Qed.
-Theorem C13_no_panic_refuted_F13b :
-  exists d, no_nil d = true /\ d_schedule d = VStr "TZ=UTC" /\ outcome (buildW oYAML d [] []) = Panic /\ outcome (buildW oMeta d [] []) = Panic.
-Proof. exact no_panic_refuted_F13b. Qed.
-Theorem C13_no_panic_refuted_F13c :
-  (exists d, d_steps d = [None] /\ outcome (buildW oYAML d [] []) = Panic) /\
-  (exists d, d_functions d = [None] /\ outcome (buildW oYAML d [] []) = Panic) /\
-  (exists d, d_preconditions d = [None] /\ outcome (buildW oYAML d [] []) = Panic) /\
-  (exists d sd, d_steps d = [Some sd] /\ sd_preconditions sd = [None] /\ outcome (buildW oYAML d [] []) = Panic).
-Proof. exact no_panic_refuted_F13c. Qed.
-Theorem C13_decode_no_panic_refuted_F13g :
-  decode (m [("steps", VList [VMap [(VStr "name", VStr "s1"); (VStr "command", VStr "echo"); (VInt 1, VStr "x")]])]) = Panic
-  /\ decode (m [("smtp", VMap [(VNull, VStr "x")])]) = Panic.
-Proof. exact decode_no_panic_refuted_F13g. Qed.
-Print Assumptions C13_no_panic_refuted_F13c.
+(* the same with the cron parser of the Cron model: no hypothesis left *)
+Theorem C13_load_no_panic_cron :
+  forall (sig_ok : string -> bool) (tokenize : string -> list (string * string)) (sh : string -> option string)
+         (o : opts) (root : yv) (e : envt),
+  outcome (load_tree cron_of_parse sig_ok tokenize sh o root e) <> Panic.
+Proof. exact load_no_panic_cron. Qed.
+Print Assumptions C13_load_no_panic_cron.
+
+Theorem C13_cron_parse_panics_only_on_tz_prefix : forall s, cron_of_parse s = CronPanic -> tz_only s = true.
+Proof. exact cron_parse_panic_tz. Qed.
+
+(* the two stages on their own *)
+Theorem C13_decode_no_panic : forall root : yv, decode root <> Panic.
+Proof. exact decode_no_panic. Qed.
+Theorem C13_decode_no_nil : forall (root : yv) (d : definition), decode root = Ok d -> no_nil d = true.
+Proof. exact decode_no_nil. Qed.
+Theorem C13_build_no_panic :
+  forall (cron : string -> cronv) (sig_ok : string -> bool) (tokenize : string -> list (string * string))
+         (sh : string -> option string),
+  (forall s, cron s = CronPanic -> tz_only s = true) ->
+  forall (o : opts) (d : definition) (base : list string),
+  no_nil d = true ->
+  forall e : envt, outcome (build cron sig_ok tokenize sh o d base e) <> Panic.
+Proof. exact build_no_panic. Qed.
+Print Assumptions C13_build_no_panic.
 
 (* ---- accepted => well-formed --------------------------------------------------------------------------------- *)
 (* every step and handler of an accepted DAG has a name and a valid (or no) stop signal; every schedule expression
-   parses.  No premise: this part of the property holds of the model for all inputs. *)
+   passed parseCron *)
 Theorem C13_wf :
   forall (cron : string -> cronv) (sig_ok : string -> bool) (tokenize : string -> list (string * string))
          (sh : string -> option string) (o : opts) (d : definition) (base : list string) (e : envt) (g : dag),
@@ -75,29 +70,26 @@ Theorem C13_wf :
 Proof. exact build_wf. Qed.
 Print Assumptions C13_wf.
 
-(* Full statement (FALSE): ... -> forall s, In s (all_steps g) -> step_executable s = true.
-   Holds when every step / handler definition names something to execute (excluded: F13e - a command list without a
-   non-empty element, an executor without a type, a call of a function whose command is parameters only). *)
-Theorem C13_executable_partial :
+(* every step and handler of an accepted DAG has something to execute (full statement since fix aac42fa) *)
+Theorem C13_executable :
   forall (cron : string -> cronv) (sig_ok : string -> bool) (tokenize : string -> list (string * string))
          (sh : string -> option string) (o : opts) (d : definition) (base : list string) (e : envt) (g : dag),
-  outcome (build cron sig_ok tokenize sh o d base e) = Ok g -> def_executable d = true ->
+  outcome (build cron sig_ok tokenize sh o d base e) = Ok g ->
   forall s, In s (all_steps g) -> step_executable s = true.
-Proof. exact build_executable_partial. Qed.
-Print Assumptions C13_executable_partial.
+Proof. exact build_executable. Qed.
+Print Assumptions C13_executable.
 
-Theorem C13_executable_refuted_F13e :
-  (exists d g, outcome (buildW oYAML d [] []) = Ok g /\ forallb step_executable (all_steps g) = false
-               /\ exists sd, d_steps d = [Some sd] /\ sd_command sd = VList []) /\
-  (exists d g, outcome (buildW oYAML d [] []) = Ok g /\ forallb step_executable (all_steps g) = false
-               /\ exists sd, d_steps d = [Some sd] /\ sd_command sd = VList [VStr ""]) /\
-  (exists d g, outcome (buildW oYAML d [] []) = Ok g /\ forallb step_executable (all_steps g) = false
-               /\ exists sd, d_steps d = [Some sd] /\ sd_executor sd = VStr "").
-Proof. exact executable_refuted_F13e. Qed.
+(* evaluating conditions never crashes, whatever the expected pattern (full statement since fix 089471d) *)
+Theorem C13_conditions :
+  forall (re_ok : string -> bool) (sh : string -> option string) (cond_met : string -> string -> bool)
+         (cs : list condition) (e : envt),
+  outcome (evalConditions re_ok sh cond_met cs e) <> Panic.
+Proof. exact evalConditions_np. Qed.
+Print Assumptions C13_conditions.
 
-(* ---- accepted => the status is serialisable, the live status endpoint does not take its nil-pointer path ------- *)
-(* Full statement (FALSE): build = Ok g -> json_ok g = true.  Excluded: F13f - executor config values holding a
-   mapping inside a list or a non-finite float. *)
+(* ---- accepted => the status is serialisable: NOT repaired (F13f) ------------------------------------------------ *)
+(* Full statement (FALSE): build = Ok g -> json_ok g = true.  Excluded: executor config values holding a mapping
+   inside a list or a non-finite float. *)
 Theorem C13_serialisable_partial :
   forall (cron : string -> cronv) (sig_ok : string -> bool) (tokenize : string -> list (string * string))
          (sh : string -> option string) (o : opts) (d : definition) (base : list string) (e : envt) (g : dag),
@@ -111,31 +103,49 @@ Theorem C13_serialisable_refuted_F13f :
   (exists d g, outcome (buildW oYAML d [] []) = Ok g /\ json_ok g = false /\ serve_status g = Panic).
 Proof. exact serialisable_refuted_F13f. Qed.
 
-(* ---- accepted => evaluating its conditions does not crash ------------------------------------------------------- *)
-(* Full statement (FALSE): build = Ok g -> NP (evalConditions (g_preconditions g)).  Excluded: F13d - an `expected:`
-   with the re: prefix whose pattern does not compile. *)
-Theorem C13_conditions_partial :
-  forall (cron : string -> cronv) (sig_ok re_ok : string -> bool) (tokenize : string -> list (string * string))
-         (sh : string -> option string) (cond_met : string -> string -> bool)
-         (o : opts) (d : definition) (base : list string) (e : envt) (g : dag),
-  outcome (build cron sig_ok tokenize sh o d base e) = Ok g -> def_regexps_ok re_ok d = true ->
-  forall cs, (forall c, In c cs -> In c (all_conditions g)) -> NP (evalConditions re_ok sh cond_met cs).
-Proof. exact build_conditions_partial. Qed.
-Print Assumptions C13_conditions_partial.
+(* ---- the witnesses of the defects that were repaired, as positive examples ------------------------------------------ *)
+(* before fix c2912bd the model answered Panic *)
+Example C13_fixed_F13a :
+  no_nil (def_of tree_F13a) = true /\ outcome (buildW oYAML (def_of tree_F13a) [] []) = Err /\
+  outcome (buildW oMeta (def_of tree_F13a) [] []) = Err.
+Proof. exact fixed_F13a. Qed.
+(* before fix 519d0a6 the model answered Panic *)
+Example C13_fixed_F13b :
+  cronW "TZ=UTC" = CronPanic /\ d_schedule (def_of tree_F13b) = VStr "TZ=UTC" /\
+  outcome (buildW oYAML (def_of tree_F13b) [] []) = Err /\ outcome (buildW oMeta (def_of tree_F13b) [] []) = Err.
+Proof. exact fixed_F13b. Qed.
+(* before fix c021988 decode let the null elements through and build answered Panic *)
+Example C13_fixed_F13c :
+  outcome (loadW oYAML (m [("steps", VList [VNull])])) = Err /\
+  outcome (loadW oYAML (m [("functions", VList [VNull]); ("steps", VList [step1])])) = Err /\
+  outcome (loadW oYAML (m [("preconditions", VList [VNull]); ("steps", VList [step1])])) = Err /\
+  outcome (loadW oYAML (m [("steps", VList [m [("name", VStr "s1"); ("command", VStr "echo hi"); ("preconditions", VList [VNull])]])])) = Err.
+Proof. exact fixed_F13c. Qed.
+(* before fix e67ca4a decode answered Panic *)
+Example C13_fixed_F13g :
+  decode (m [("steps", VList [VMap [(VStr "name", VStr "s1"); (VStr "command", VStr "echo"); (VInt 1, VStr "x")]])]) = Err
+  /\ decode (m [("smtp", VMap [(VNull, VStr "x")])]) = Err.
+Proof. exact fixed_F13g. Qed.
+(* before fix 089471d evaluating the accepted condition answered Panic *)
+Example C13_fixed_F13d :
+  exists d g, outcome (buildW oYAML d [] []) = Ok g /\ reW "re:[" = false /\
+    outcome (evalConditions reW shW metW (g_preconditions g) []) = Err.
+Proof. exact fixed_F13d. Qed.
+(* before fix aac42fa these four definitions were accepted with nothing to execute *)
+Example C13_fixed_F13e :
+  outcome (loadW oYAML (m [("steps", VList [m [("name", VStr "s1"); ("command", VList [])]])])) = Err /\
+  outcome (loadW oYAML (m [("steps", VList [m [("name", VStr "s1"); ("command", VList [VStr ""])]])])) = Err /\
+  outcome (loadW oYAML (m [("steps", VList [m [("name", VStr "s1"); ("executor", VStr "")]])])) = Err /\
+  outcome (loadW oYAML (m [("functions", VList [m [("name", VStr "f"); ("params", VStr "x"); ("command", VStr "$x")]]);
+                           ("steps", VList [m [("name", VStr "s1"); ("call", m [("function", VStr "f"); ("args", m [("x", VStr "")])])]])])) = Err.
+Proof. exact fixed_F13e. Qed.
 
-Theorem C13_conditions_refuted_F13d :
-  exists d g, outcome (buildW oYAML d [] []) = Ok g /\
-    outcome (evalConditions reW shW metW (g_preconditions g) []) = Panic.
-Proof. exact conditions_refuted_F13d. Qed.
-
-(* ---- the premises are met by a concrete definition with a schedule mapping, evaluated env, a function call, a
-        sub-workflow, an executor with nested config, handlers and regular-expression preconditions ----------------- *)
-Example C13_premises_satisfiable :
-  all_keys_strings example_tree = true /\ decode example_tree = Ok example_def /\
-  no_nil example_def = true /\ sched_safe cronW (d_schedule example_def) = true /\
-  def_executable example_def = true /\ def_config_clean example_def = true /\ def_regexps_ok reW example_def = true /\
+(* ---- non-vacuity: a definition with a schedule mapping, evaluated env, a function call, a sub-workflow, an executor
+        with nested config, handlers and regular-expression preconditions is accepted ----------------------------------- *)
+Example C13_nonvacuous :
+  decode example_tree = Ok example_def /\ no_nil example_def = true /\ def_config_clean example_def = true /\
   (exists g, outcome (buildW oYAML example_def [] []) = Ok g /\ List.length (all_steps g) = 7 /\
-             List.length (g_schedule g) = 2 /\ List.length (all_conditions g) = 2) /\
+             List.length (g_schedule g) = 2 /\ List.length (all_conditions g) = 2 /\ json_ok g = true) /\
   (exists g, outcome (buildW oLoad example_def [] []) = Ok g /\
              effects (buildW oLoad example_def [] []) = [EExec "echo a"; ESetenv "A" ""; ESetenv "B" "2"]).
 Proof. exact premises_satisfiable. Qed.
